@@ -122,8 +122,21 @@ func flvMux(hv, ha bool, tags []flvTag) (out []byte, res string) {
 		}()
 	}
 	res = h.Safe(func() string {
-		var w bytes.Buffer
-		m, err := flv.NewMuxer(&w)
+		// the writer is, in turn, a plain buffer and a file-like writer that can also seek (what an application muxing
+		// to disk hands over): the bytes in it after Close are the file
+		flvMuxN++
+		var buf bytes.Buffer
+		mf := &flvMemFile{}
+		var w io.Writer = &buf
+		if flvMuxN%2 == 0 {
+			w = mf
+		}
+		defer func() {
+			if flvMuxN%2 == 0 {
+				out = mf.b
+			}
+		}()
+		m, err := flv.NewMuxer(w)
 		if err != nil {
 			return "err"
 		}
@@ -136,10 +149,42 @@ func flvMux(hv, ha bool, tags []flvTag) (out []byte, res string) {
 			}
 		}
 		m.Close()
-		out = w.Bytes()
+		out = buf.Bytes()
 		return "ok"
 	})
 	return
+}
+
+var flvMuxN int
+
+// flvMemFile: an in-memory io.WriteSeeker.
+type flvMemFile struct {
+	b   []byte
+	pos int
+}
+
+func (f *flvMemFile) Write(p []byte) (int, error) {
+	if need := f.pos + len(p); need > len(f.b) {
+		f.b = append(f.b, make([]byte, need-len(f.b))...)
+	}
+	copy(f.b[f.pos:], p)
+	f.pos += len(p)
+	return len(p), nil
+}
+
+func (f *flvMemFile) Seek(off int64, whence int) (int64, error) {
+	switch whence {
+	case io.SeekStart:
+		f.pos = int(off)
+	case io.SeekCurrent:
+		f.pos += int(off)
+	default:
+		f.pos = len(f.b) + int(off)
+	}
+	if f.pos < 0 {
+		f.pos = 0
+	}
+	return int64(f.pos), nil
 }
 
 // readers with different segmentations of the same byte stream -------------------------------
